@@ -63,7 +63,8 @@ def make_pool(rng, size):
             pool.append((names[i], kind, games.to_solver(gd)))
         else:
             base = games.to_solver(c09.base_game(rng))
-            eds = list(c09.edits(base))
+            # only descriptions that can be written down in a file / passed to another process as text
+            eds = [e for e in c09.edits(base) if e[0] not in ("container:deque", "container:UserList", "container:iterator")]
             rule, pc, g = rng.choice(eds) if rng.random() > 0.08 else [e for e in eds if e[0] == "empty-game"][0]
             pool.append((names[i], "malformed:" + rule, g))
     # a small game whose distribution is exact as rationals but sums to 1 +- one ulp in doubles (in some listing order)
